@@ -173,7 +173,7 @@ def drop_failed_optional(p, r, rng=None):
 
 
 def run(chk):
-    n = 400 if chk.tier == "quick" else 12000
+    n = 1200 if chk.tier == "quick" else 12000
     chk.rule = ("random projects with raised shadowing/soft/if-then/provider density through the real CLI; compared with the model on "
                 "the ORDERED module list of every build; oracle: app first, no duplicates, every module from the nearest defining "
                 "context; metamorphic: deleting an optional dependency that cannot resolve leaves module lists and ninja file unchanged; "
